@@ -30,6 +30,25 @@ def qs(j):
     return None if q is None else str(q)
 
 
+def f32_bracket(e):
+    """exact rational e -> (largest float32 < e, smallest float32 > e) as Fractions; None when e is itself a
+    float32 value (or out of the float32 range)"""
+    with np.errstate(over="ignore"):
+        c = np.float32(float(e))
+    if not np.isfinite(c):
+        return None
+    fc = F(float(c))
+    if fc == e:
+        return None
+    if fc < e:
+        lo, hi = c, np.nextafter(c, np.float32(np.inf))
+    else:
+        lo, hi = np.nextafter(c, np.float32(-np.inf)), c
+    if not (np.isfinite(lo) and np.isfinite(hi)):
+        return None
+    return F(float(lo)), F(float(hi))
+
+
 def canon_pixels(arr):
     """(Y, X, N) or (Y, X) array -> rows of pixels; an all-NaN pixel is None"""
     arr = np.asarray(arr)
@@ -97,12 +116,16 @@ class C05(Prop):
             "the window edges themselves (peaks exactly on the lower/upper edge; with ppm widths a peak within 1e-9 of an edge is "
             "undetermined); windows empty / below / above / touching first or last "
             "peak / many peaks / overlapping / unsorted; a 'real' stream with non-dyadic values and a summation tolerance; "
+            "a 32-bit-edge class (20% of the exact stream): decimal masses 100..1000 with absolute widths 0.05..3.3 or 10..5000 ppm, "
+            "mostly f32 m/z, integer intensities, peaks on float32(e) and its float32 neighbours for the edges e = m -/+ w/2 that are "
+            "not float32 values (peak just below/above the lower/upper edge, one float32 step >= 6e-8 relative away); "
             "bins with dyadic widths incl. spectra with a peak in every bin. non-trivial = at least one of the named window "
             "classes or a sparse/size-absent image; distinct by canonical case hash")
     trusted = ["np.searchsorted on a sorted array returns #{p | a[p] < v}; np.add.reduceat, np.append, np.frombuffer, np.arange as documented",
                "exact stream: m/z k/2^14 < 256 and integer intensities < 2^11 so float32/float64 sums and the float window edges "
-               "of absolute widths are exact; ppm widths and the real stream: cases with a peak within 1e-9 relative of a window edge are "
-               "undetermined; real stream: sums compared with tolerance 8*n*eps*total",
+               "of absolute widths are exact; 32-bit-edge class: m/z < 1024 stored as float32, integer intensities < 2^11, sums exact; "
+               "ppm widths, the real stream and every absolute width whose float64 edges m -/+ w/2 are not exact: cases with a peak "
+               "within 1e-9 relative of a window edge are undetermined; real stream: sums compared with tolerance 8*n*eps*total",
                "xml.etree.ElementTree parses the synthetic document as written; float(text) of the stored TIC"]
     assumptions = ["positions are 1-based and inside the stated image size; spectra are non-empty with strictly increasing m/z",
                    "mass_range is checked as a bound (low <= every m/z <= high); bin edges returned by binned_masses are accepted when they "
@@ -126,6 +149,8 @@ class C05(Prop):
 
     def generate(self, rng, tier):
         real = rng.random() < 0.15
+        if not real and rng.random() < 0.2:
+            return self.generate_f32edge(rng)
         X, Y = rng.choice([(1, 1), (1, 1), (1, 2), (2, 1), (2, 2), (3, 2), (2, 3), (1, 4), (4, 1), (3, 3), (4, 4)])
         cells = [(x, y) for y in range(1, Y + 1) for x in range(1, X + 1)]
         mode = rng.random()
@@ -211,6 +236,73 @@ class C05(Prop):
                 "spectra": spectra, "masses": masses, "scalar": len(masses) == 1 and rng.random() < 0.5,
                 "width": width, "binw": binw, "style": rng.randint(0, gen_imzml.NSTYLES - 1)}
 
+    def generate_f32edge(self, rng):
+        """exact-intensity stream, 32-bit m/z next to window edges that are NOT float32 values: decimal target masses
+        and widths (absolute and ppm), peaks on float32(e) and on its float32 neighbours for the edges e = m -/+ w/2.
+        The stored peaks are at least ~6e-8 relative away from the edge (one float32 step), far outside the 1e-9
+        guard that covers the float64 rounding of the edge expression itself."""
+        X, Y = rng.choice([(1, 1), (1, 1), (1, 2), (2, 1), (2, 2), (3, 2), (2, 3), (3, 3)])
+        cells = [(x, y) for y in range(1, Y + 1) for x in range(1, X + 1)]
+        pos = list(cells) if rng.random() < 0.3 else ([p for p in cells if rng.random() < 0.6] or [rng.choice(cells)])
+        rng.shuffle(pos)
+        size = None if rng.random() < 0.3 else [X, Y]
+        mzdt = "f4" if rng.random() < 0.85 else "f8"
+        itdt = rng.choice(["f4", "f8"])
+        if rng.random() < 0.5:
+            width = {"kind": "mz", "value": rng.choice([0.2, 0.2, 0.33, 0.1, 0.05, 0.7, 1.7, 3.3])}
+        else:
+            width = {"kind": "ppm", "value": rng.choice([10.0, 25.0, 50.0, 100.0, 500.0, 5000.0])}
+
+        def half(m):
+            return m * width["value"] / 1e6 / 2.0 if width["kind"] == "ppm" else width["value"] / 2.0
+
+        masses = []
+        for _ in range(rng.randint(1, 5)):
+            if rng.random() < 0.3:
+                masses.append(rng.choice([499.9, 500.1, 500.3, 120.7, 250.15, 999.9]))
+            else:
+                masses.append(round(rng.uniform(100.0, 1000.0), rng.choice([1, 1, 2, 3])))
+        if len(masses) > 1 and rng.random() < 0.25:
+            # adjacent windows (upper edge of one next to the lower edge of the other) / identical windows
+            masses[1] = rng.choice([masses[0], round(masses[0] + 2 * half(masses[0]), 6)])
+        f32, inf = np.float32, np.float32(np.inf)
+        cands = []
+        for m in masses:
+            for e in (m - half(m), m + half(m)):
+                c = f32(e)
+                near = [c, np.nextafter(c, -inf), np.nextafter(c, inf)]
+                # an edge that (nearly) is a float32 value: a peak on it would fall inside the guard, keep its neighbours only
+                cands.append([float(v) for v in near if abs(float(v) - e) > 1e-8 * abs(e)])
+                if rng.random() < 0.2:
+                    cands.append([float(np.nextafter(near[1], -inf)), float(np.nextafter(near[2], inf))])
+        nshared = rng.random() < 0.2
+
+        def axis():
+            n = rng.choice([1, 1, 2, 2, 3, 4, 5, 6, 8])
+            vals = set()
+            while len(vals) < n:
+                r = rng.random()
+                if r < 0.7:
+                    vals.add(rng.choice(rng.choice(cands)))
+                elif r < 0.8:
+                    vals.add(float(f32(rng.choice(masses))))
+                else:
+                    vals.add(rng.randint(100 * 64, 1000 * 64) / 64)
+            return sorted(vals)
+
+        shared_axis = axis()
+        spectra = []
+        for (x, y) in pos:
+            mz = list(shared_axis) if nshared else axis()
+            it = [float(rng.choice([1, 2, 3, 5, 8, 100, 1000, 2047, rng.randint(0, 2047)])) for _ in mz]
+            spectra.append({"x": x, "y": y, "mz": mz, "it": it, "tic": self.gen_tic(rng, sum(it))})
+        if rng.random() < 0.3:
+            rng.shuffle(masses)
+        return {"kind": "exact", "size": size, "mzdt": mzdt, "itdt": itdt, "shared": nshared,
+                "ifirst": rng.random() < 0.3, "pad": rng.randint(0, 10 ** 6) if rng.random() < 0.5 else None,
+                "spectra": spectra, "masses": masses, "scalar": len(masses) == 1 and rng.random() < 0.5,
+                "width": width, "binw": None, "style": rng.randint(0, gen_imzml.NSTYLES - 1)}
+
     def densify(self, rng, spectra, w):
         """rewrite some spectra so that every bin of arange(min, max + w, w) holds one of their peaks and
         the last bin holds the global maximum (the class for which binned_masses is proved correct)"""
@@ -257,6 +349,16 @@ class C05(Prop):
                "width": {"kind": "mz", "value": 1.0}, "binw": 1.0}
         yield {**base, "spectra": [{**sp, "mz": [100.0], "it": [9.0]}], "masses": [101.0],
                "width": {"kind": "mz", "value": 1.0}, "binw": 0.5}
+        # 32-bit m/z, window edges that are not float32 values, peaks on the float32 neighbours of each edge
+        f32, inf = np.float32, np.float32(np.inf)
+        for m, width in ((500.0, {"kind": "mz", "value": 0.2}), (500.2, {"kind": "mz", "value": 0.2}),
+                         (120.7, {"kind": "mz", "value": 0.33}), (500.0, {"kind": "ppm", "value": 100.0}),
+                         (731.3, {"kind": "ppm", "value": 25.0})):
+            h = m * width["value"] / 1e6 / 2.0 if width["kind"] == "ppm" else width["value"] / 2.0
+            mz = sorted({float(v) for e in (m - h, m + h) for c in [f32(e)]
+                         for v in (np.nextafter(c, -inf), c, np.nextafter(c, inf))} | {float(f32(m))})
+            yield {**base, "mzdt": "f4", "spectra": [{**sp, "mz": mz, "it": [float(2 ** j) for j in range(len(mz))]}],
+                   "masses": [m], "width": width}
         # no spectrum at all
         yield {**base, "size": [2, 1], "spectra": [], "masses": [101.0], "width": {"kind": "mz", "value": 1.0}}
 
@@ -359,8 +461,15 @@ class C05(Prop):
         # undetermined: a peak within 1e-9 relative of a window edge whose float value depends on how the code
         # rounds (real stream; every ppm width: m*ppm/1e6/2 and e.g. m*(ppm*5e-7) are both right but round differently)
         undet = False
-        if case["kind"] == "real" or width["kind"] == "ppm":
-            edges = [core.unrat(e) for e in rep["edges"]]
+        edges = [core.unrat(e) for e in rep["edges"]]
+        guard = case["kind"] == "real" or width["kind"] == "ppm"
+        if not guard:
+            # absolute width: the float64 expressions m - w/2, m + w/2 are exact for the dyadic classes; where they
+            # round (decimal masses / widths) the same guard applies, whatever stream the case came from
+            h = float(width["value"]) / 2.0
+            fl = [F(v) for m in masses for v in (float(m) - h, float(m) + h)]
+            guard = fl != edges
+        if guard:
             for s in dspecs:
                 for m in s["mz"]:
                     q = core.unrat(m)
@@ -440,8 +549,22 @@ class C05(Prop):
         if any(a[0] < b[1] and b[0] < a[1] for i, a in enumerate(wins) for b in wins[i + 1:]):
             f.add("windows-overlap")
         nontriv = set()
+        # 32-bit m/z next to a window edge that is not a float32 value: the stored neighbours of the edge
+        brackets = []
+        if case["mzdt"] == "f4":
+            brackets = [(f32_bracket(lo), f32_bracket(hi)) for lo, hi in wins]
+            if any(b is not None for pair in brackets for b in pair):
+                f.add("f32-unrepresentable-edge")
         for s in dspecs:
             mz = [core.unrat(m) for m in s["mz"]]
+            mzset = set(mz)
+            for pair in brackets:
+                for name, b in zip(("lower", "upper"), pair):
+                    if b is not None:
+                        if b[0] in mzset:
+                            nontriv.add(f"f32-peak-just-below-{name}-edge")
+                        if b[1] in mzset:
+                            nontriv.add(f"f32-peak-just-above-{name}-edge")
             f.add("n1" if len(mz) == 1 else "n2" if len(mz) == 2 else "n>2")
             for lo, hi in wins:
                 inside = [m for m in mz if lo <= m < hi]
